@@ -83,22 +83,41 @@ def _hist_c15(line):
 
 
 _TRUSTED = [
-    "Coq 8.16.1 kernel (coqc); vm_compute only in Example lemmas; no native_compute",
-    "extraction: ExtrOcamlBasic only (nat, N, Z, positive, byte stay extracted inductives); OCaml 4.13.1",
+    "Coq 8.16.1 kernel (coqc); vm_compute only in the Example lemmas of C14.v / C15.v and in the two concrete "
+    "counterexample theorems C15.reader_polls_fault_refuted / reader_total_streaming_refuted; no native_compute",
+    "extraction: ExtrOcamlBasic only (its Extract Inductive directives for bool, option, list, prod, unit, sumbool, "
+    "sumor); no other Extract Inductive, no Extract Constant (nat, N, Z, positive, byte stay extracted inductives); "
+    "OCaml 4.13.1",
     "hand-written OCaml driver ocaml/transfac/driver.ml (line parsing, chunk construction, calls of the extracted "
     "checkers check_c14/check_c15 -- proved sound and complete in CheckProofs.v -- and of the extracted reader+parser "
-    "model, messages); PROPFAIL is decided by the extracted checkers only (plus, for C14, textual equality of the "
-    "outcome sequences of the 9 chunkings and the record count of the bundled files)",
+    "model (record parser TransfacCur.parse_record_cur), messages; the recogniser of the bundled files is hand-written "
+    "and untrusted: its output counts only if the extracted wf_file accepts it and the extracted print_file re-prints "
+    "the file byte for byte). No hand-written PROPFAIL path remains: PROPFAIL is decided by extracted checkers only - "
+    "check_c15p (C15.check_c15p_sound / check_c15p_complete), check_c14p (C14.check_c14p_sound), check_same_chunkings "
+    "(chunking clause) and check_count (bundled file = nrec records, END, END x post; "
+    "C14.check_same_chunkings_sound / check_count_sound are equivalences; proofs in PollProofs.v); their arguments "
+    "(the expected records of a generated case, nrec of a bundled file) come from the input line. Hand-written around "
+    "them: the message text, the rule that a PROPFAIL takes precedence over a DIFF, and the labelling of a check_c15p "
+    "rejection as known finding F-T1 when the model of the code as it is panics on the same script. No verdict "
+    "fails open: a skipped transfac line, a record outcome without to_freq fields, a bundled file that is neither "
+    "inst=1 nor inst=0, and parse_streaming_modelled = false are DIFFs",
     "Rust harness harness/src/bin/transfac.rs (file generators and mutators, canonical printer print_canon compared "
     "byte for byte with TransfacPrint.print_file, custom chunked BufRead, scripted failing BufRead EvChunked (fill_buf fails with "
-    "kind Other or is interrupted at chosen points), polling consumer read_all(b, cap, post), catch_unwind + watchdog thread)",
+    "kind Other, is interrupted, or returns an empty slice once although more data follows (`Ez`) at chosen points), polling "
+    "consumer read_all(b, cap, post), catch_unwind + watchdog thread)",
     "translator translate/transfac_reader.py (regex reading of the two `last` updates and the starts_with literals of reader.rs, the "
-    "two-letter codes of parse_tag in parse.rs, K and the from_ascii arms of Dna / Protein in abc.rs -> coq/transfac/GenReader.v; "
-    "anything else = cannot parse = broken obligation)",
+    "two-letter codes of parse_tag in parse.rs, K and the from_ascii arms of Dna / Protein in abc.rs; wave 3: every path of "
+    "transfac/parse.rs (outside #[cfg(test)]) with a segment `streaming`, the functions naming `space1`, whether `Incomplete` / "
+    "`Needed` is named; whether the Incomplete arm of `impl From<nom::Err<..>> for Error` in error.rs is a panicking macro "
+    "-> coq/transfac/GenReader.v; anything else = cannot parse = broken obligation)",
     "modelled, not verified: transfac/{reader,parse,mod}.rs and error.rs as Gallina functions on byte lists; "
     "nom 7.1.3 combinator semantics (Nom.v, error kinds not modelled); std BufRead::read_until/read_line over "
-    "fill_buf/consume and str::from_utf8 (Stream.v, Bytes.utf8_valid); str::trim with the White_Space set; "
-    "character-level operations read at byte level (exact on valid UTF-8, which read_line guarantees)",
+    "fill_buf/consume and str::from_utf8 (Stream.v, Bytes.utf8_valid; over fault events TransfacFault.v); str::trim with "
+    "the White_Space set; character-level operations read at byte level (exact on valid UTF-8, which read_line guarantees); "
+    "the reader model assigns `last = length buf'` like the source (`last = buffer.len()`, reader.rs since /repo 23feb61; "
+    "C15.reader_model_last_is_source_last re-checks the translated flag on every run); f32::from_str is Ok on every token "
+    "nom's recognize_float_or_exceptions accepts, i.e. the `parse_to() == None` branch of nom::number::complete::float is not "
+    "modelled (it would show as DIFF model=R impl=E:nom)",
     "decimal -> f32: NOT trusted to Rust: Dec2F32.f32_of_token converts the token exactly (integer arithmetic + one "
     "Flocq binary_normalize rounding) and the harness' cell bits (Rust's str::parse::<f32>) are compared with it bit for bit",
     "Flocq 4.1.0 binary32 (BinarySingleNaN) for cell values, Record::to_counts (round, ==, saturating cast) and Record::to_freq "
@@ -133,14 +152,17 @@ C14_SPEC = dict(
          "theorem's expected_record; each file read through "
          "BufReader capacities 1,2,3,5,17,64,8192,1048576 and a custom BufRead with a cyclic random chunk-size pattern. "
          "Checked: the outcome sequence (id, accession, name, description, every cell as f32 bits, references, "
-         "to_counts) equals the written records then END (extracted check_c14), is the same for all 9 chunkings, and "
+         "to_counts) equals the written records then END (extracted check_c14p), is the same for all 9 chunkings (extracted "
+         "check_same_chunkings on the parsed outcome sequences -> PROPFAIL; a difference in the raw text only, i.e. in the "
+         "to_freq fields, -> DIFF), a bundled file gives nrec records then END (extracted check_count) and must say inst=1 "
+         "(recognised instance of reader_roundtrip, else DIFF) or inst=0 (declared not to be one; counted in the histogram), and "
          "equals the extracted reader+parser model run on one chunk, on the random chunking and on 1-byte chunks; "
          "canonical cases carry wf=1 and the driver confirms with the extracted wf_file that they lie inside the "
          "hypothesis of C14.reader_roundtrip. Round 3: generated lines carry post=2 (two more next() after the end of input, under "
          "all 9 chunkings): expected records, END, then END post times (extracted check_c14p: check_c14p_sound, "
          "check_c14p_is_check_c14, model_passes_c14p; theorem reader_roundtrip_post); every record outcome carries "
          "Record::to_freq(0.0) / to_freq(0.5) as f32 bits, recomputed by the extracted to_freq_bits from the record's own cells "
-         "(DIFF to_freq(..); theorems to_freq_shape, to_freq_rows_normalised). 17 theorems in coq/transfac/C14.v. "
+         "(DIFF to_freq(..); theorems to_freq_shape, to_freq_rows_normalised). 21 theorems in coq/transfac/C14.v. "
          "Non-trivial: distinct files with >= 2 records or a matrix of >= 2 rows.",
     trusted_base=_TRUSTED,
     assumptions=[
@@ -165,6 +187,9 @@ C14_SPEC = dict(
         "TRANSFAC: a file starting with the letters VV is read as having a version header: everything up to the "
         "first '//' line is dropped by Reader::new (behaviour of the code, modelled as is; the printer closes the "
         "header with XX and '//')",
+        "TRANSFAC: a stream is a partition of the bytes into the pieces the BufRead delivers; empty pieces are not "
+        "deliveries (C14.empty_chunks_are_not_deliveries); what std does with an empty fill_buf slice belongs to the fault "
+        "model of C15",
     ],
 )
 
@@ -193,12 +218,16 @@ C15_SPEC = dict(
          "printed); 18 % of the cases are 2-4 record files with damaged UTF-8 (invalid bytes at any offset, at line starts, "
          "multi-byte characters at line starts); half of the cases are also read through 1-2 scripted streams whose fill_buf "
          "fails (kind Other) or is interrupted at chosen points (corpus/C15/transfac_poll.txt: 0xff at every offset and a fault after "
-         "every number of bytes of a 3-record file). Checked: every outcome sequence is records, one error or END, then exactly post "
+         "every number of bytes of a 3-record file) or returns an empty slice although more data follows (`Ez`, a transient end "
+         "of input: corpus/C15/transfac_eof.txt, 17 % of the generated cases). Checked: every outcome sequence is records, one error or END, then exactly post "
          "returned values, no PANIC/HANG (extracted check_c15p, proved sound and complete), and equals outcome by outcome (record "
-         "contents included, error kind io/nom) the extracted model (reader model for the chunkings; fault model selected by the "
+         "contents included, error kind io/nom) the extracted model (record parser TransfacCur.parse_record_cur = the model of "
+         "space1 selected by the streaming combinators the translator finds in parse.rs -- none; reader model for the chunkings; fault model selected by the "
          "translated flag for the scripted streams: since /repo 23feb61 the flag reads `last = buffer.len()` = the repaired reader, "
-         "total for any number of polls). 32 theorems in coq/transfac/C15.v; those named `_current` / `_generated` / "
-         "gen_prefixes_are_modelled are re-checked against GenReader.v on every run. Non-trivial: distinct non-empty inputs.",
+         "total for any number of polls). 43 theorems in coq/transfac/C15.v (27 property theorems, 7 instantiated with generated "
+         "constants, 9 translation ties); those named `_current` / `_generated` / gen_prefixes_are_modelled / "
+         "reader_model_last_is_source_last / parse_streaming_is_modelled / parsers_are_complete / parse_record_cur_is_fixed / "
+         "error_from_incomplete_is_generated are re-checked against GenReader.v on every run. Non-trivial: distinct non-empty inputs.",
     trusted_base=_TRUSTED,
     assumptions=[
         "TRANSFAC: for streams whose fill_buf fails, reader_total_faults_stop (reader as it was before /repo 23feb61, consumer stops "
@@ -207,10 +236,18 @@ C15_SPEC = dict(
         "reader.rs (the repaired one since 23feb61). Polling the UNREPAIRED reader again after a fault in the middle of a line can "
         "panic (finding F-T1, witness kept as reader_polls_fault_refuted; status fixed in known_findings.d/transfac.json); std's "
         "read_until/read_line/append_to_string semantics (Interrupted retried, valid partial line kept on error, invalid appended "
-        "bytes cut back) are modelled in TransfacFault.v and tied by the scripted-stream differential check",
+        "bytes cut back) are modelled in TransfacFault.v and tied by the scripted-stream differential check; without faults the fault "
+        "model is the reader model of the other theorems for either assignment of `last` (fault_free_agree_any, "
+        "fault_free_agree_current, fault_free_trace_current); a fill_buf that returns an EMPTY slice although more data follows "
+        "(event EEof) is part of the fault model and of these theorems (no panic, no hang), but the outcomes then differ from "
+        "those of the uninterrupted stream (the end of input is returned, later requests return more records: ex_transient_eof) "
+        "-- C14 and reader_end_is_final speak of chunkings of a byte string only",
         "TRANSFAC: reader_total is a theorem about the Gallina model (reader.rs, parse.rs, error.rs, the nom "
         "combinators and std's read_line as modelled in Nom.v / Stream.v); panic sites of the model = the slice "
-        "`buffer[last..]` (bounds, char boundary) and `unreachable!()` on nom::Err::Incomplete; allocation failure, "
+        "`buffer[last..]` (bounds, char boundary) and `unreachable!()` on nom::Err::Incomplete (that parse.rs uses complete "
+        "combinators only, so that Incomplete cannot arise, is a regenerated static fact: C15.parsers_are_complete / "
+        "parse_streaming_is_modelled against GenReader.v; that the Incomplete arm of error.rs panics is re-read as well: "
+        "C15.error_from_incomplete_is_generated); allocation failure, "
         "stack overflow and panics inside nom/std themselves are not modelled (nom's float parser and f32::from_str "
         "are total); Record::to_counts / to_freq are called by the harness under catch_unwind and compared with the model "
         "(to_freq: TransfacFreq.v) but are not part of the totality theorem",
